@@ -404,7 +404,8 @@ theorem turn_keeps [CommRing α] (Q : M3 α) (r : Row α) :
 
 In the theorems above the angle is whatever the service `S.ang` returns. Here the service is the real
 counterpart `realNum` of the driver's (`atan2(√skewSq/2, (trace−1)/2)` in degrees), and the value is tied to
-C06: `angDist_is_rotation_angle`, `trace_rel`. -/
+C06: `angDist_is_rotation_angle`, `trace_rel` — imported from `Lemmas/C06_Export.lean`, which carries none of C06's
+translator obligations, so an edit of a `geom.py` function C18 does not use cannot stop this file from building. -/
 
 /-- **One row.** For a query and a neighbour whose Euler angles are real numbers, the row's angular distance
 (i) is the angle in `[0°, 180°]` whose cosine is `(trace − 1)/2` of the relative orientation `R_qᵀ·R_n` reported in
@@ -431,7 +432,7 @@ theorem angular_distance_is_rotation_angle (at2 : ℝ → ℝ → ℝ) (px : ℝ
   refine ⟨hrel, ?_, ?_, ?_⟩
   · rw [hang, ← mq, ← mn]; exact realNum_ang_rel _ _ uq un
   · rw [hang]; exact hquat
-  · rw [hang, hquat]; exact C06.angDist_range at2 _ _
+  · rw [hang, hquat]; exact C06.Export.angDist_range at2 _ _
 
 /-- **Every row of the table.** When every particle's Euler angles are real numbers, each row of the table
 computed with the real services is the report about a query `q` and a same-tomogram particle `n` (`RowOf`, as in
